@@ -221,7 +221,11 @@ def _extra_cases():
         r = Z.rn(g, *batch, n, 2, dtype=dt)
         return O.SumLinearOperator(O.DenseLinearOperator(a), O.DiagLinearOperator(d), O.RootLinearOperator(r)), a + torch.diag_embed(d) + r @ r.mT
 
+    def zero_square(g, dt, batch, n):
+        return O.ZeroLinearOperator(*batch, n, n, dtype=dt), torch.zeros(*batch, n, n, dtype=dt)
+
     for c in [
+        Z.Case("x_zero_square", "ZeroLinearOperator", zero_square),
         Z.Case("x_root_wide", "RootLinearOperator", root_wide, psd=True),
         Z.Case("x_root_square", "RootLinearOperator", root_square, psd=True),
         Z.Case("x_diag_neg", "DiagLinearOperator", diag_neg),
@@ -237,7 +241,7 @@ def _extra_cases():
 
 
 # torch-free list of the extra case names (kept in sync by _selfcheck_names)
-EXTRA_NAMES = ["x_root_wide", "x_root_square", "x_diag_neg", "x_constdiag_neg", "x_kron_diag_dense", "x_addeddiag_const",
+EXTRA_NAMES = ["x_zero_square", "x_root_wide", "x_root_square", "x_diag_neg", "x_constdiag_neg", "x_kron_diag_dense", "x_addeddiag_const",
                "x_addeddiag_toeplitz", "x_lrr_addeddiag_const", "x_constmul_neg", "x_sum3"]
 
 
